@@ -568,7 +568,12 @@ class Protocol:
         """
         if self._readahead is not None:
             raise ValueError("Attempted to unread multiple pkt-lines.")
-        self._readahead = BytesIO(pkt_line(data))
+        if data is None:
+            self._readahead = BytesIO(b"0000")
+        else:
+            # Not pkt_line(): whatever read_pkt_line() accepted can be put
+            # back, including a frame longer than this side would send.
+            self._readahead = BytesIO(b"%04x" % (len(data) + 4) + data)
 
     def read_pkt_seq(self) -> Iterable[bytes]:
         """Read a sequence of pkt-lines from the remote git process.
